@@ -256,6 +256,16 @@ pub proof fn lemma_heads_preserved(nodes: Set<ChangeHash>, dep: spec_fn(ChangeHa
         }
     }
 }
+pub proof fn lemma_push_to_set(s: Seq<ChangeHash>, x: ChangeHash)
+    ensures s.push(x).to_set() =~= s.to_set().insert(x)
+{
+    let t = s.push(x);
+    assert forall|y: ChangeHash| t.to_set().contains(y) <==> s.to_set().insert(x).contains(y) by {
+        if t.contains(y) { let j = choose|j: int| 0 <= j < t.len() && t[j] == y; if j < s.len() { assert(s[j] == y); } }
+        if s.contains(y) { let j = choose|j: int| 0 <= j < s.len() && s[j] == y; assert(t[j] == y); }
+        if y == x { assert(t[s.len() as int] == y); }
+    }
+}
 pub proof fn lemma_prefix_set_step(s: Seq<ChangeHash>, k: int)
     requires 0 <= k < s.len()
     ensures s.subrange(0, k + 1).to_set() =~= s.subrange(0, k).to_set().insert(s[k])
@@ -355,20 +365,25 @@ impl Automerge {
 
 //@ fn rust/automerge/src/automerge.rs | impl Automerge | transaction_args
 //@   ret r
+//@   after /^                        deps\.push\(last_hash\);$/
+                        proof { lemma_push_to_set(old(self).spec_heads(), last_hash); }
+//@   after /^                    let last_hash = self\.get_hash\(actor_index, seq - 1\)\.unwrap\(\);$/
+                    proof { if old(self).spec_heads().contains(last_hash) { assert(old(self).spec_heads().to_set().insert(last_hash) =~= old(self).spec_heads().to_set()); } }
 //@   spec
         ensures
             // C04: start op is one past every op the document has applied
             r.start_op.get() == final(self).change_graph.spec_max_op() + 1,
             // C04: next sequence number of the actor
             heads is None ==> r.seq == final(self).change_graph.spec_seq(r.actor_index) + 1,
-            // C04: isolated => deps are exactly the isolation heads
-            heads matches Some(h) ==> r.deps@ == h@,
-            // C04: not isolated => deps are the current heads plus the actor's own previous change (no duplicate)
+            // C04 (dependencies are compared as SETS: the property does not fix their order):
+            // isolated => deps are exactly the isolation heads
+            heads matches Some(h) ==> r.deps@.to_set() == h@.to_set(),
+            // not isolated => deps are the current heads plus the actor's own previous change
             heads is None ==> ({
                 let hs = old(self).spec_heads();
                 let a = r.actor_index;
                 let prev_seq = final(self).change_graph.spec_seq(a);
-                if prev_seq >= 1 && !hs.contains(final(self).spec_hash(a, prev_seq)) { r.deps@ == hs.push(final(self).spec_hash(a, prev_seq)) } else { r.deps@ == hs }
+                if prev_seq >= 1 { r.deps@.to_set() == hs.to_set().insert(final(self).spec_hash(a, prev_seq)) } else { r.deps@.to_set() == hs.to_set() }
             }),
             // C38: the conflicting queued branch of (actor, seq) is dropped before the transaction starts
             final(self).queue.dropped(final(self).ops.actors[r.actor_index as int], r.seq),
